@@ -4,24 +4,71 @@ import os, json
 import vlib
 
 TIERS = {
-    "quick": dict(runs=40, steps=70, depth=3, maxnodes=3000),
-    "thorough": dict(runs=600, steps=120, depth=4, maxnodes=40000),
+    "quick": dict(runs=40, steps=70, depth=3, maxnodes=3000, sweepmax=40, simnum=25,
+                  exh=[(2, 5, 1, 1, "{5}"), (1, 4, 1, 1, "{4}"), (3, 6, 1, 1, "{2, 6}")], adv=[(1, 4, 2, 3, "{4}")],
+                  sim=[(2, 5, 1, 1, "{3, 5}", 16), (3, 7, 1, 1, "{4, 7}", 14)]),
+    "thorough": dict(runs=600, steps=120, depth=4, maxnodes=40000, sweepmax=400, simnum=200,
+                     exh=[(b, n, 1, 1, "{%d}" % n) for b in (1, 2, 3) for n in (3, 4, 5, 6, 7)] + [(2, 6, 1, 1, "{1, 6}"), (3, 7, 1, 1, "{2, 5, 7}")],
+                     adv=[(1, 4, 2, 3, "{4}"), (1, 6, 0, 5, "{6}"), (2, 6, 2, 5, "{6}")],
+                     sim=[(1, 4, 1, 1, "{2, 4}", 20), (2, 5, 1, 1, "{3, 5}", 18), (3, 7, 1, 1, "{4, 7}", 16), (2, 7, 1, 1, "{1, 7}", 22)]),
 }
+
+
+def sweep_cfg(path, b, n0, mc, mx, risky, inv, constraint, depth=40):
+    with open(path, "w") as f:
+        f.write("SPECIFICATION Spec\nCONSTANTS B = %d  N0 = %d  MaxCreate = %d  MaxClose = %d  Risky0 = %s  Emit = TRUE  Depth = %d\n"
+                "%s\nCONSTRAINT %s\nVIEW View\nCHECK_DEADLOCK FALSE\n" % (b, n0, mc, mx, risky, depth, "\n".join("INVARIANT " + i for i in inv), constraint))
+
+
+def sweep_models(c, d, t):
+    """MC_Sweep: (1) exhaustive: the liveness bound holds in the model when the environment creates/closes at most one other
+    position; (2) adversarial configs: every shortest violating behaviour is emitted; (3) simulation: random behaviours.
+    (2) and (3) are replayed on real vaults by the harness."""
+    tfile = os.path.join(d, "sweep.txt")
+    open(tfile, "w").close()
+    stats = dict(generated=0, distinct=0, configs=[])
+    for k, (b, n0, mc, mx, risky) in enumerate(t["exh"]):
+        cfg = "sw_exh_%d.cfg" % k
+        sweep_cfg(os.path.join(d, cfg), b, n0, mc, mx, risky, ["Live"], "Short")
+        r = vlib.model_check(d, "MC_Sweep", cfg, workers=4, timeout=900)
+        stats["generated"] += r["generated"]; stats["distinct"] += r["distinct"]
+        stats["configs"].append("exhaustive B=%d N0=%d create<=%d close<=%d risky=%s: %d distinct" % (b, n0, mc, mx, risky, r["distinct"]))
+    for k, (b, n0, mc, mx, risky) in enumerate(t["adv"]):
+        cfg = "sw_adv_%d.cfg" % k
+        sweep_cfg(os.path.join(d, cfg), b, n0, mc, mx, risky, ["LiveOrEmit"], "Short")
+        r = vlib.model_check(d, "MC_Sweep", cfg, workers=1, timeout=900, tfile=tfile)
+        stats["generated"] += r["generated"]; stats["distinct"] += r["distinct"]
+        stats["configs"].append("adversarial B=%d N0=%d create<=%d close<=%d: %d violating behaviours emitted" % (b, n0, mc, mx, r.get("transitions_dumped", 0)))
+    for k, (b, n0, mc, mx, risky, depth) in enumerate(t["sim"]):
+        cfg = "sw_sim_%d.cfg" % k
+        with open(os.path.join(d, cfg), "w") as f:
+            f.write("SPECIFICATION Spec\nCONSTANTS B = %d  N0 = %d  MaxCreate = %d  MaxClose = %d  Risky0 = %s  Emit = TRUE  Depth = %d\n"
+                    "INVARIANT Live\nINVARIANT EmitAtDepth\nCONSTRAINT DepthBound\nCHECK_DEADLOCK FALSE\n" % (b, n0, mc, mx, risky, depth))
+        r = vlib.run_tlc(d, "MC_Sweep", cfg, workers=1, timeout=600, simulate="num=%d" % t["simnum"], extra=["-depth", str(depth + 1), "-seed", str(c.seed)])
+        if "Error:" in r["out"] or "violated" in r["out"]:
+            vlib.log(vlib.tlc_error_text(r["out"]))
+            raise vlib.NoVerdict("MC_Sweep simulation reported a model-level error (not a verdict about the code)")
+        with open(tfile, "a") as f:
+            for l in r["out"].splitlines():
+                if l.startswith('<<"T", '):
+                    f.write(l + "\n")
+    return tfile, stats
 
 
 def produce(c, binhash):
     t = TIERS[c.tier]
 
     def producer(d):
-        vlib.stage_spec(d, ["harbor"])
+        vlib.stage_spec(d, ["harbor", "sweep"])
         logf = os.path.join(d, "harbor.ndjson")
+        sweepfile, mstats = sweep_models(c, d, t)
         vlib.run_vh(["harbor", "--out", logf, "--seed", str(c.seed), "--runs", str(t["runs"]), "--steps", str(t["steps"]),
-                     "--depth", str(t["depth"]), "--maxnodes", str(t["maxnodes"])], timeout=3000)
+                     "--depth", str(t["depth"]), "--maxnodes", str(t["maxnodes"]), "--sweep", sweepfile, "--sweepmax", str(t["sweepmax"])], timeout=3000)
         tr = vlib.trace_check(d, "Trace_Harbor", "Trace_Harbor.cfg", logf, workers=8 if c.tier == "thorough" else 4,
                               timeout=3400, heap="8g")
-        return dict(fails=tr["fails"], stats=tr["stats"], distinct=tr.get("distinct"), generated=tr.get("generated"), wall=tr["wall"])
+        return dict(fails=tr["fails"], stats=tr["stats"], distinct=tr.get("distinct"), generated=tr.get("generated"), wall=tr["wall"], model=mstats)
 
-    d, res, was_cached = vlib.cached("harbor", [binhash, vlib.spec_hash("harbor"), c.tier, c.seed, TIERS[c.tier]], producer)
+    d, res, was_cached = vlib.cached("harbor", [binhash, vlib.spec_hash("harbor", "sweep"), c.tier, c.seed, TIERS[c.tier]], producer)
     return d, res, was_cached
 
 
@@ -39,7 +86,8 @@ def run(c, need):
     pick = [n for n in nodes if n["res"].get("ok") and n["a"] not in ("Init", "Block", "Price")][:400]
     c.samples = [dict(a=n["a"], args=n["args"], res=n["res"]) for n in pick[:: max(1, len(pick) // 6)]][:6]
     return c.finish("model_checking", dict(
-        states=res["distinct"], transitions=res["distinct"], traces_validated_against_impl=st.get("nodes", 0),
+        states=res["model"]["distinct"] + res["distinct"], transitions=res["model"]["generated"] + res["distinct"],
+        traces_validated_against_impl=st.get("nodes", 0), sweep_model=res["model"]["configs"], trace_states=res["distinct"],
         antecedents=st, shared_log_cached=was_cached,
         rule="every node of the recorded tree log (seeded multi-actor behaviours over 6 decimal/fee configurations + bounded "
              "breadth-first exploration of a fixed action-instance set on CacheContext branches) is one TLC state of Trace_Harbor; "
